@@ -9,7 +9,7 @@ out=/tmp/seedout/$tag; mkdir -p $out
 git -C /repo worktree remove --force $wt >/dev/null 2>&1; rm -rf $wt $vc
 git -C /repo worktree add --detach $wt HEAD >/dev/null 2>&1 || { echo "worktree failed"; exit 2; }
 git -C $wt apply "$patch" || { echo "PATCH DOES NOT APPLY"; git -C /repo worktree remove --force $wt; exit 2; }
-mkdir -p $vc && rsync -a --exclude .git --exclude .build/run --exclude replays /verif/ $vc/
+mkdir -p $vc && rsync -a --exclude .git --exclude .build/run --exclude replays ${VERIF_SRC:-/verif}/ $vc/
 (cd $vc && VERIF_REPO=$wt VERIF_EVIDENCE_DIR=$vc/.build/evidence-mutant ./check $prop --tier $tier) > $out/check-$prop.txt 2>&1
 echo "rc=$?" >> $out/check-$prop.txt
 git -C /repo worktree remove --force $wt; rm -rf $vc
